@@ -6,7 +6,7 @@
    soundness theorems over the plain tree [mroot] are not yet proved (stated below as the
    checked, bounded obligations they currently are). *)
 From Coq Require Import List NArith.
-From Sia Require Import Prim.Tok Merkle.Tree Merkle.Forest Merkle.Rhp Merkle.RhpProofs.
+From Sia Require Import Prim.Tok Merkle.Tree Merkle.Forest Merkle.Rhp Merkle.RhpProofs Merkle.RhpRoot.
 Import ListNotations.
 
 Theorem C16_accumulator_is_forest : forall H L ds xs, Repr hash (node H) L ds ->
@@ -39,3 +39,28 @@ Example C16_acc_root_upto_9 : let H := fun b : bytes => b in
      if list_eq_dec (list_eq_dec N.eq_dec) [pa_root H (fold_left (fun a h => insert_node H h 0 a) ls [])] [mroot H ls] then true else false)
     (seq 1 9) = true.
 Proof. vm_compute. reflexivity. Qed.
+
+(* the streaming accumulators compute the root of the plainly defined tree (split at the largest power of two strictly
+   below the length), for every list of leaves: sectorAccumulator.appendNode / proofAccumulator.insertNode(_, 0) /
+   blake2b.Accumulator.AddLeaf followed by root() *)
+Theorem C16_streaming_root_is_plain_root : forall H (ls : list hash),
+  pa_root H (fold_left (fun a h => insert_node H h 0 a) ls []) = mroot H ls.
+Proof. exact streaming_root_is_plain_root. Qed.
+Print Assumptions C16_streaming_root_is_plain_root.
+
+(* any accumulator state that represents L (digit i = root of a perfect tree of height i, oldest leaves in the highest
+   digit) has the plain root of L as its root *)
+Theorem C16_forest_root_is_plain_root : forall H L ds, Repr hash (node H) L ds -> pa_root H ds = mroot H L.
+Proof. exact repr_root. Qed.
+Print Assumptions C16_forest_root_is_plain_root.
+
+(* MetaRoot (accumulator up to the limit, recursive split above it) is the plain root for every list and limit >= 1 *)
+Theorem C16_metaroot_is_plain_root : forall H fuel limit, (1 <= limit)%nat -> forall ls, (length ls <= fuel)%nat ->
+  meta_root H fuel limit ls = mroot H ls.
+Proof. exact meta_root_is_plain_root. Qed.
+Print Assumptions C16_metaroot_is_plain_root.
+
+(* a perfect tree's root is the plain root of its leaves (ties the proofs-in-a-perfect-tree theorems above to mroot) *)
+Theorem C16_perfect_root_is_plain_root : forall H t, perfect hash t -> mroot H (leaves hash t) = root hash (node H) t.
+Proof. exact perfect_root. Qed.
+Print Assumptions C16_perfect_root_is_plain_root.
